@@ -262,7 +262,9 @@ int main(int argc, char** argv) {
             std::string s = slurp(a.replay); size_t p = s.find("orig="), q = s.find(";variant=");
             std::string orig = unhex(s.substr(p + 5, q - p - 5)), var = unhex(s.substr(q + 9));
             Pool rp(1, 120);
-            rp.run(1, [&](uint64_t, Result& R) { std::string d0 = lib::file_dump(lib::read_bytes(orig)), d1 = lib::file_dump(lib::read_bytes(var)); if (d0 != d1) R.violation("rewrite|replay", "reader output differs", s); },
+            std::string pz; { size_t z = s.find(";poison="); if (z != std::string::npos) { pz = unhex(s.substr(z + 8)); var = unhex(s.substr(q + 9, z - q - 9)); } }
+            rp.run(1, [&](uint64_t, Result& R) { std::string d0 = lib::file_dump(lib::read_bytes(orig)), d1 = lib::file_dump(lib::read_bytes(var)); if (d0 != d1) R.violation("rewrite|replay", "reader output differs", s);
+                if (!pz.empty()) { lib::read_bytes(pz); std::string d2 = lib::file_dump(lib::read_bytes(var)); if (d2 != d1) R.violation("rewrite|stateful-after-failed-read|replay", "decodes differently after a failed read", s); } },
                    [&](uint64_t, const std::string& d, Result& R) { R.violation("rewrite|" + crash_key(d), d.substr(0, 1500), s); }, total);
             return done(total.viol.empty() ? 0 : 1);
         }
@@ -277,6 +279,15 @@ int main(int argc, char** argv) {
             if (si < 2 || T) single_rewrites(root, T, add); else if (si == 3) single_rewrites(root, false, add);
             global_rewrites(root, add);
         }
+        // "poison" inputs: reads that fail in the middle of skipping a nested unknown value. Decoding must be a function of the input alone,
+        // so a failed read immediately before (same thread, fresh reader object) must not change what the next file decodes to.
+        std::vector<std::string> poison;
+        { Node root = parse_exact(seeds[0].second); Node v = mk_array({mk_uint(1), mk_array({mk_uint(2), mk_map({mk_uint(5), mk_array({mk_uint(3), mk_tstr("abcdef")})})}), mk_uint(7)});
+          Node vi = v; vi.indef = true; vi.kids[1].indef = true;
+          for (const Node& val : {v, vi}) { Node r2 = root; Node& blk = r2.kids[2].kids[0]; blk.kids.insert(blk.kids.begin(), {mk_uint(100), val}); std::string whole = encode(r2), ev = encode(val); size_t pos = whole.find(ev);
+              if (pos != std::string::npos) { poison.push_back(whole.substr(0, pos + ev.size() - 4)); poison.push_back(whole.substr(0, pos + 3)); } }
+          { Node r2 = root; Node& blk = r2.kids[2].kids[0]; Node bad = mk_array({mk_uint(1), mk_uint(2)}); blk.kids.insert(blk.kids.begin(), {mk_uint(100), bad}); std::string whole = encode(r2); size_t pos = whole.find(encode(bad)); if (pos != std::string::npos) { whole[pos + 2] = (char)0x1c; poison.push_back(whole); } }  // reserved additional info inside a skipped value
+          for (auto& pz : poison) { lib::LibFile lf = lib::read_bytes(pz); if (lf.end == "eof") { fprintf(stderr, "poison input unexpectedly readable\n"); return done(2); } } }
         Pool pool(a.jobs, 120);
         pool.run(cases.size(), [&](uint64_t i, Result& R) {
             if (a.expired()) { R.deadline_hit = true; return; }
@@ -295,6 +306,9 @@ int main(int argc, char** argv) {
                 std::string tail = ld.size() > 80 ? ld.substr(ld.size() - 80) : ld;
                 R.violation("rewrite|" + kind, "seed " + seeds[c.seed].first + " " + c.desc + ": reader output differs from the original at " + std::to_string(p) + " (…" + tail + ")", rep);
             }
+            // the same read again, each time right after a read that failed inside skip_item
+            for (size_t pz = 0; pz < poison.size(); pz++) { lib::read_bytes(poison[pz]); std::string again = lib::file_dump(lib::read_bytes(c.bytes)); R.count("traces"); R.count("nontrivial");
+                if (again != ld) { R.violation("rewrite|stateful-after-failed-read|" + kind, "seed " + seeds[c.seed].first + " " + c.desc + ": the same file decodes differently right after a failed read of another input (poison #" + std::to_string(pz) + ")", rep + ";poison=" + hex(poison[pz])); break; } }
             R.outcome(kind + (ld != orig_dump[c.seed] ? ":viol" : ":ok"));
             if (i % 5003 == 11) R.sample("seed=" + seeds[c.seed].first + ";rw=" + c.desc);
         }, [&](uint64_t i, const std::string& d, Result& R) { R.violation("rewrite|" + crash_key(d), "crash on " + cases[i].desc + ": " + d.substr(0, 1500), pool.last_note); }, total);
